@@ -40,7 +40,7 @@ func c03Bound(kind string) time.Duration {
 	switch kind {
 	case "hang":
 		return 3 * time.Second // backend_read
-	case "stall":
+	case "stall", "stall-up":
 		return 7 * time.Second // server write timeout
 	case "slow":
 		return 4 * time.Second // the 3 s drip itself
@@ -215,7 +215,7 @@ func init() {
 			// features are on) alone, before and after each fault, and followed by a pause longer than every window
 			seqs = append(seqs, []string{"storm"}, []string{"storm", "storm"})
 			// a backend that goes silent in the middle of a body
-			seqs = append(seqs, []string{"stall"}, []string{"stall", "stall"}, []string{"stall", "ok"})
+			seqs = append(seqs, []string{"stall"}, []string{"stall", "stall"}, []string{"stall", "ok"}, []string{"stall-up"}, []string{"stall-up", "stall"})
 			for _, k := range faultKinds {
 				seqs = append(seqs, []string{"storm", k}, []string{k, "storm"}, []string{"storm", "w", k})
 			}
